@@ -33,6 +33,12 @@ pub struct TreeCfg {
     pub ts_step_max: u64,
     /// per mille chance to skip a committable transaction (keeps proposals uncommitted longer)
     pub commit_skip_pm: u64,
+    /// upper bound on committed (non-cellbase) transactions per generated block (sessions with a
+    /// small consensus cycle limit)
+    pub max_commits: usize,
+    /// upper bound on the summed serialized size of the committed transactions per generated
+    /// block (sessions with a small consensus `max_block_bytes`)
+    pub max_commit_bytes: usize,
 }
 
 impl Default for TreeCfg {
@@ -49,6 +55,8 @@ impl Default for TreeCfg {
             invalid: 2,
             ts_step_max: 20_000,
             commit_skip_pm: 150,
+            max_commits: usize::MAX,
+            max_commit_bytes: usize::MAX,
         }
     }
 }
@@ -224,6 +232,8 @@ impl TreeGen {
         let mut chosen: Vec<TransactionView> = vec![];
         let mut spent: HashSet<(H, u32)> = HashSet::new();
         let mut created: HashSet<H> = HashSet::new();
+        let max = max.min(self.cfg.max_commits);
+        let mut bytes: usize = 0;
         // several passes so that children proposed before their parents can still be picked
         for _pass in 0..3 {
             for tx in &cands {
@@ -232,6 +242,10 @@ impl TreeGen {
                 }
                 let th = h(&tx.hash());
                 if created.contains(&th) {
+                    continue;
+                }
+                let tx_bytes = tx.data().serialized_size_in_block();
+                if bytes.saturating_add(tx_bytes) > self.cfg.max_commit_bytes {
                     continue;
                 }
                 if self.rng.chance(self.cfg.commit_skip_pm, 1000) {
@@ -273,6 +287,7 @@ impl TreeGen {
                         spent.insert(k);
                     }
                     created.insert(th);
+                    bytes += tx_bytes;
                     chosen.push(tx.clone());
                 }
             }
